@@ -37,3 +37,9 @@ func WitnessList(name string, parts ...string) {}
 func VfsOnly(prefix string) {}
 func FlipOrder(m any) {}
 func Thorough() bool { return false }
+
+// Corpus access: the example programs of /repo/test selected for this run (quick: a seeded
+// sample, thorough: all).
+func CorpusCount() int          { return 0 }
+func CorpusSource(i int) string { return "" }
+func CorpusName(i int) string   { return "" }
